@@ -649,10 +649,12 @@ pub fn oracle(ctx: &mut Ctx) {
                     args.push("-q".into());
                     let stdin = rng.bool();
                     args.extend(["--out".into(), "out.png".into(), if stdin { "-".into() } else { "in.png".into() }]);
+                    let t_exe = std::time::Instant::now();
                     let r = if stdin { crate::cli::run_bin_stdin(dir, &args, &m) } else { crate::cli::run_bin(dir, &args) };
                     st.count("cases_through_the_executable");
                     match r.status {
                         Some(0) | Some(1) | Some(3) => st.count(&format!("executable_exit_{}", r.status.unwrap())),
+                        None if t_exe.elapsed().as_secs() >= crate::cli::BIN_TIMEOUT_S => st.fail("hang", format!("the executable had not ended after {} s on {} of {} ({})", crate::cli::BIN_TIMEOUT_S, mname, fname, args.join(" ")), replay.clone()),
                         other => st.fail("abort", format!("the executable ended with {:?} (killed by a signal, or an exit status of its own invention) on {} of {} ({})", other, mname, fname, args.join(" ")), replay.clone()),
                     }
                 }
